@@ -5,6 +5,19 @@ From SK Require Import lib.LGraph lib.Mono lib.Reach lib.C01_GraphLemmas model.C
   proof.C06_All proof.C06_Comp proof.C06_Comps proof.C06_CompSem proof.C06_CompNoDup proof.C06_Prefilter.
 Import ListNotations.
 
+Lemma oracle_ok_meaning (enum : list N -> list N -> list mapping) (H P : graph) :
+  oracle_ok enum H P <->
+  (let L := enum (node_ids H) (node_ids P) in
+   (forall m, In m L -> is_mono H P m) /\
+   (forall m, is_mono H P m -> exists m', In m' L /\ Permutation m m') /\
+   NoDupA (@Permutation (N * N)) L) /\
+  (forall hc pc, In hc (comps H) -> In pc (comps P) -> length pc <= length hc ->
+   let L := enum hc pc in
+   (forall m, In m L -> is_mono_on H P hc pc m) /\
+   (forall m, is_mono_on H P hc pc m -> exists m', In m' L /\ Permutation m m') /\
+   NoDupA (@Permutation (N * N)) L).
+Proof. split; intros Hx; exact Hx. Qed.
+
 Section Oracle.
 Variable enum : list N -> list N -> list mapping.
 
@@ -144,7 +157,7 @@ Lemma monos_on_oracle_ok H P : gwf H -> gwf P -> oracle_ok (monos_on H P) H P.
 Proof.
   intros HwfH HwfP. split.
   - apply monos_on_contract; [exact HwfP|apply HwfH|apply HwfP].
-  - intros hc pc Ihc Ipc. apply monos_on_contract; [exact HwfP| |].
+  - intros hc pc Ihc Ipc _. apply monos_on_contract; [exact HwfP| |].
     + apply (comps_class H HwfH hc Ihc).
     + apply (comps_class P HwfP pc Ipc).
 Qed.
